@@ -16,7 +16,6 @@ import re
 
 import common as C
 
-CLASSES = {0: None, 1: "null_sender", 2: "oversize_desync", 3: "single_554"}
 CONFIGS = [(200, 3), (1000, 2), (90, 1), (400, 4)]
 USERS = ["u1@example.com", "u2@example.com", "u3@example.com", "u4@example.com", "u5@example.com"]
 
@@ -314,11 +313,9 @@ def run_sessions(cases):
             cases[i]["panic"] = o.get("panic")
 
 
-COQ_HDR = C.COQ_CASE_HEADER + """From Raven Require Import Base.Enum Model.Lmtp Model.LmtpMsg Spec.LmtpDialog Spec.LmtpStream Proof.LmtpDialog.
+COQ_HDR = C.COQ_CASE_HEADER + """From Raven Require Import Base.Enum Model.Lmtp Model.LmtpMsg Spec.LmtpDialog Spec.LmtpStream.
 Local Open Scope list_scope.
 Local Open Scope Z_scope.
-Definition cls_code (o : option finding) : N :=
-  match o with None => 0 | Some NullSender => 1 | Some OversizeDesync => 2 | Some Single554 => 3 end%N.
 Definition b2n (b : bool) (n : N) : N := if b then n else 0%N.
 """
 
@@ -330,7 +327,7 @@ Definition chk_s (x : Z * Z * str * list reply * option N) : N :=
   let m := evs_match evs reps &&
            match unread with Some n => N.eqb n (N.of_nat (length rest)) | None => true end in
   let sp := stream_ok mr (fst (split_lines input)) reps in
-  (b2n m 1 + b2n sp 2 + 4 * cls_code (classify_evs evs))%N.
+  (b2n m 1 + b2n sp 2)%N.
 """
 
 COQ_READER = """
@@ -402,33 +399,20 @@ def load_corpus():
 
 def judge_sessions(chk, cases, codes, stats):
     for c, code in zip(cases, codes):
-        m, sp, cls = bool(code & 1), bool(code & 2), CLASSES.get(code >> 2)
+        m, sp = bool(code & 1), bool(code & 2)
         stats["evaluated"] += 1
-        if cls:
-            stats["in_class_" + cls] = stats.get("in_class_" + cls, 0) + 1
         if not sp:
             stats["spec_violations_seen"] += 1
-            what = "LMTP session out of step: replies %s to the stream %r (max_size=%d max_recipients=%d) fail stream_ok" % (
-                [r[0] for r in c["reps"]], c["input"][:160], c["ms"], c["mr"])
-            if cls and m:
-                chk.violation("[%s] %s" % (cls, what), session_payload(c), cls=cls)
-            elif not cls and stats.get("reported", 0) >= 5:
+            if stats.get("reported", 0) >= 5:
                 stats["unreported_violations"] = stats.get("unreported_violations", 0) + 1
-            elif cls:
-                # inside a listed class and not as the model predicts: informational
-                chk.notes.append("session inside finding class %s differs from the model: %r" % (cls, c["input"][:120]))
-                stats["disagreements"] += 1
-            else:
-                stats["reported"] = stats.get("reported", 0) + 1
-                chk.violation(what, session_payload(c))
+                continue
+            stats["reported"] = stats.get("reported", 0) + 1
+            where = (" [regression scenario corpus/C16/%s]" % c["corpus"]) if c.get("corpus") else ""
+            chk.violation("LMTP session out of step%s: replies %s to the stream %r (max_size=%d max_recipients=%d) fail stream_ok" % (
+                where, [r[0] for r in c["reps"]], c["input"][:160], c["ms"], c["mr"]), session_payload(c))
         elif not m:
             stats["disagreements"] += 1
-            if any(ch > 127 for ch in c["input"]) and c["info"].get("nonascii_cmd"):
-                chk.notes.append("domain edge (non-ASCII command line): %r" % (c["input"][:120],))
-            elif cls:
-                chk.notes.append("session inside finding class %s differs from the model: %r" % (cls, c["input"][:120]))
-            else:
-                yield c
+            yield c
 
 
 def probe_neighbourhood(chk, c):
@@ -452,7 +436,7 @@ def probe_neighbourhood(chk, c):
     if codes is None:
         return True
     for p, code in zip(ok, codes):
-        if not (code & 2) and not (code >> 2):
+        if not (code & 2):
             chk.violation("LMTP session out of step (found next to a model/implementation disagreement): replies %s to %r" % (
                 [r[0] for r in p["reps"]], p["input"][:200]), session_payload(p))
             return True
@@ -518,6 +502,7 @@ def run(chk):
         return
     nd = 0
     n_over = 0
+    n_rv = 0
     for (b, term, rest, mx, s), o, code in zip(rcases, r_reader, cr):
         payload = {"suite": "reader", "stream": C.latin(s), "max": mx, "impl": o}
         if code & 32:
@@ -527,15 +512,17 @@ def run(chk):
         n_over += over
         if not sp:
             what = "ReadDataCommand(max=%d) on %r: err=%s data=%r left=%r" % (mx, s[:120], o["err"], o.get("data", "")[:60], o.get("rest", "")[:60])
-            if over and m:
-                chk.violation("[oversize_desync] over-size body is not drained to the terminator: " + what, payload, cls="oversize_desync")
-            elif over:
-                nd += 1
-                chk.notes.append("reader case inside class oversize_desync differs from the model: %r" % s[:100])
+            n_rv += 1
+            if n_rv > 5:
+                continue
+            if over:
+                chk.violation("over-size body is not refused or not read to the terminator: " + what, payload)
             else:
                 chk.violation("message data not passed through exactly / reader out of step: " + what, payload)
         elif not m:
             nd += 1
+            if nd > 3:
+                continue
             chk.broken_obligation("correspondence reader no longer checks: ReadDataCommand differs from Model.Lmtp.read_data_cmd on %r (max=%d): %s" % (s[:120], mx, o), payload)
     for a, mo, ro, code in zip(pargs, r_mail, r_rcpt, cp):
         if code != 3:
@@ -605,8 +592,10 @@ def run(chk):
     chk.cov["disagreements_checked"] = nd + stats["disagreements"]
     chk.cov["sessions"] = {"total": len(good), "corpus": ncorpus, "with_354": len(with_tx),
                            "chunk1_position_checked": sum(1 for c in good if c["chunk"] == 1),
-                           "spec_violations_seen_all_in_listed_classes": stats["spec_violations_seen"],
-                           **{k: v for k, v in stats.items() if k.startswith("in_class_")}}
+                           "oversize_bodies": sum(c["info"].get("oversize", 0) for c in good),
+                           "refused_messages": sum(c["info"].get("bad", 0) for c in good),
+                           "null_reverse_path": sum(c["info"].get("null", 0) for c in good),
+                           "spec_violations_seen": stats["spec_violations_seen"]}
     if stats.get("unreported_violations"):
         chk.notes.append("%d further spec-violating sessions not written out (first 5 reported)" % stats["unreported_violations"])
     chk.cov["reader_cases"] = {"total": len(rcases), "structured": sum(1 for x in rcases if x[1]), "oversize": n_over}
